@@ -185,6 +185,22 @@ theorem xdims_ok {c : Counts} {op : Op} {ds ds' : Dims} (hs : Scoped op = true)
       rcases List.mem_cons.mp hp with rfl | hp
       · cases hg
       · exact h p hp hg
+  | expandDims k last =>
+    simp only [xdims] at hx
+    split at hx
+    · cases hx
+    · cases hx
+      intro p hp hg
+      cases last with
+      | false =>
+        rcases List.mem_cons.mp hp with rfl | hp
+        · cases hg
+        · exact h p hp hg
+      | true =>
+        simp only [if_true, List.mem_append, List.mem_singleton] at hp
+        rcases hp with hp | rfl
+        · exact h p hp hg
+        · cases hg
   | copy deep fresh => simp [xdims] at hx; subst hx; exact h
   | gridIsel c => simp [xdims] at hx
   | integrate => simp [xdims] at hx
@@ -314,6 +330,7 @@ theorem step_preserves_inv {T : Table} {s s' : State} {op : Op} (hg : OpGood T o
   | renameName => exact stepX_inv hg hi' (by simpa [step] using h)
   | concatAlong k n => exact stepX_inv hg hi' (by simpa [step] using h)
   | concatNew k n => exact stepX_inv hg hi' (by simpa [step] using h)
+  | expandDims k l => exact stepX_inv hg hi' (by simpa [step] using h)
   | copy deep fresh =>
     cases deep with
     | false =>
@@ -486,6 +503,7 @@ theorem same_grid {T : Table} {s s' : State} {op : Op} (hg : OpGood T op)
   | renameName => exact stepX_same hg hu (by simpa [step] using h)
   | concatAlong k n => exact stepX_same hg hu (by simpa [step] using h)
   | concatNew k n => exact stepX_same hg hu (by simpa [step] using h)
+  | expandDims k l => exact stepX_same hg hu (by simpa [step] using h)
   | copy deep fresh =>
     cases deep with
     | false =>
@@ -601,6 +619,8 @@ structure Spec (s : State) (op : Op) (s' : State) (xd : Dims) : Prop where
   same : op.sameGrid = true → s'.arr.grid = s.arr.grid ∧ s'.heap = s.heap
   deep : (∃ f, op = .copy true f) → DeepCopyOK s s'
   dest : ∀ g2 d, op = .remap g2 d → s'.arr.grid = some g2
+  byName : ∀ c, op = .gridIsel c →
+    ∃ d, centred s.arr.dims = some d ∧ s'.arr.dims = setLen s.arr.dims d (c.get d)
   shape : op.isX = true → s'.arr.dims = xd
 
 theorem Spec.inv {s s' : State} {op : Op} {xd : Dims} (h : Spec s op s' xd) : Inv s' :=
@@ -652,7 +672,7 @@ theorem specB_iff {s s' : State} {op : Op} {xd : Dims} :
       cases hx : attachedB s' with
       | true => rfl
       | false => simp [hu, hgn, hx] at h3
-    refine ⟨hu, (attachedB_iff.mp ha).2, ?_, ?_, ?_, ?_⟩
+    refine ⟨hu, (attachedB_iff.mp ha).2, ?_, ?_, ?_, ?_, ?_⟩
     · intro hs
       simp only [hs, if_true, hgn, Bool.false_or] at h4
       cases hx : (s'.arr.grid == s.arr.grid && s'.heap == s.heap) with
@@ -668,6 +688,16 @@ theorem specB_iff {s s' : State} {op : Op} {xd : Dims} :
       cases hx : (s'.arr.grid == some g2) with
       | true => simpa using hx
       | false => simp [hx] at h5
+    · rintro c rfl
+      simp only [hgn, Bool.false_or] at h5
+      cases hx : gridIselShapeB s c s' with
+      | false => simp [hx] at h5
+      | true =>
+        unfold gridIselShapeB at hx
+        split at hx
+        · rename_i d hd
+          exact ⟨d, hd, by simpa using hx⟩
+        · cases hx
     · intro hx
       simp only [hx, if_true] at h6
       by_cases hd : s'.arr.dims = xd
@@ -693,6 +723,9 @@ theorem specB_iff {s s' : State} {op : Op} {xd : Dims} :
         | true => simp [deepCopyB_iff.mpr (h.deep ⟨f, rfl⟩)]
         | false => rfl
       | remap g2 d => simp [h.dest g2 d rfl]
+      | gridIsel c =>
+        obtain ⟨d, hd, he⟩ := h.byName c rfl
+        simp [gridIselShapeB, hd, he]
       | _ => rfl
     · cases hx : op.isX with
       | false => simp
@@ -726,7 +759,7 @@ theorem model_meets_spec {T : Table} {s s' : State} {op : Op} (hg : OpGoodS T op
     ∀ xd, (op.isX = true → xdims op s.arr.dims = some xd) → Spec s op s' xd := by
   intro xd hxd
   have hinv := step_preserves_inv hg.1 hi h
-  refine ⟨hinv.1, hinv.2, fun hs => same_grid hg.1 hs hi h, ?_, ?_, ?_⟩
+  refine ⟨hinv.1, hinv.2, fun hs => same_grid hg.1 hs hi h, ?_, ?_, ?_, ?_⟩
   · rintro ⟨f, rfl⟩
     have hf : f = true := by
       cases f with
@@ -741,6 +774,14 @@ theorem model_meets_spec {T : Table} {s s' : State} {op : Op} (hg : OpGoodS T op
     · split at h
       · cases h; rfl
       · cases h
+    · cases h
+  · rintro c rfl
+    obtain ⟨g, r, hc, hd⟩ := cur_of_inv hi
+    simp only [step, hc] at h
+    split at h
+    · rename_i x d hx hcd
+      cases h
+      exact ⟨d, hcd, rfl⟩
     · cases h
   · intro hx
     have hxd' := hxd hx
@@ -762,6 +803,67 @@ theorem model_meets_spec {T : Table} {s s' : State} {op : Op} (hg : OpGoodS T op
         | true =>
           simp only [step, hu, hc, if_true] at h; cases h; rfl
       | _ => simp_all [Op.isX, Op.kind]
+
+/-! ## grid-`isel` is by name: it commutes with transposition -/
+
+theorem centred_perm {ds nd : Dims} (hp : nd.Perm ds) : centred nd = centred ds := by
+  unfold centred
+  have hf := hp.filter (fun p => p.1.isGrid)
+  cases h1 : ds.filter (fun p => p.1.isGrid) with
+  | nil => rw [h1] at hf; rw [List.perm_nil.mp hf]
+  | cons a l =>
+    cases l with
+    | nil => rw [h1] at hf; rw [List.perm_singleton.mp hf]
+    | cons b l =>
+      rw [h1] at hf
+      have hl := hf.length_eq
+      cases h2 : nd.filter (fun p => p.1.isGrid) with
+      | nil => simp [h2] at hl
+      | cons a' l' =>
+        cases l' with
+        | nil => simp [h2] at hl
+        | cons b' l'' => rfl
+
+/-- **"transpose then isel" = "isel then transpose"**: for every table with a re-attaching transpose
+    path, every state satisfying the invariant, every layout `nd` of its dimensions and every sub-grid
+    `c`, slicing the transposed array gives the transposed slice — same heap, same new grid, and the
+    dimensions are `nd` with the grid dimension's length replaced (the element dimension need not be
+    last, or anywhere in particular). -/
+theorem isel_commutes_with_transpose {T : Table} (hT : (T .transpose).good = true) {s s1 s2 : State}
+    {nd : Dims} {c : Counts} (hi : Inv s)
+    (h1 : step T s (.transpose nd) = some s1) (h2 : step T s1 (.gridIsel c) = some s2) :
+    ∃ d s3, centred s.arr.dims = some d ∧ step T s (.gridIsel c) = some s3 ∧
+      step T s3 (.transpose (setLen nd d (c.get d))) = some s2 := by
+  obtain ⟨g, r, hc, hd⟩ := cur_of_inv hi
+  obtain ⟨hu, hgr, hr⟩ := cur_some hc
+  -- the transposed state
+  have hx1 : stepX T s (.transpose nd) = some s1 := by simpa [step] using h1
+  unfold stepX at hx1
+  simp only [Op.kind, xdims] at hx1
+  split at hx1
+  · rename_i k ds hk hxd
+    cases hk
+    split at hxd
+    · rename_i hperm
+      cases hxd
+      cases hx1
+      rw [build_good hT hu] at h2
+      have hp := List.isPerm_iff.mp hperm
+      have hc1 : cur ⟨s.heap, ⟨true, s.arr.grid, nd⟩⟩ = some (g, r) := by simp [cur, hgr, hr]
+      simp only [step, hc1] at h2
+      split at h2
+      · rename_i x d hx hcd
+        cases h2
+        have hcd' : centred s.arr.dims = some d := by rw [← centred_perm hp]; exact hcd
+        refine ⟨d, ⟨s.heap ++ [⟨c, freshStore s.heap⟩],
+          ⟨true, some s.heap.length, setLen s.arr.dims d (c.get d)⟩⟩, hcd', by simp only [step, hc, hcd'], ?_⟩
+        have hperm2 : (setLen nd d (c.get d)).isPerm (setLen s.arr.dims d (c.get d)) = true :=
+          List.isPerm_iff.mpr (hp.map _)
+        simp only [step, stepX, Op.kind, xdims, hperm2, if_true]
+        rw [build_good hT rfl]
+      · cases h2
+    · cases hxd
+  · cases hx1
 
 /-! ## the converse: the other two paths break the invariant, and nothing repairs it -/
 
@@ -832,6 +934,7 @@ theorem lost_stays_lost {T : Table} : ∀ (p : List Op) (s s' : State),
       | renameName => simp only [step, stepX] at h1; split at h1 <;> cases h1; simp [build, hu]
       | concatAlong k n => simp only [step, stepX] at h1; split at h1 <;> cases h1; simp [build, hu]
       | concatNew k n => simp only [step, stepX] at h1; split at h1 <;> cases h1; simp [build, hu]
+      | expandDims k l => simp only [step, stepX] at h1; split at h1 <;> cases h1; simp [build, hu]
       | _ => simp [Op.isX, Op.kind] at hx
     · cases h
 
@@ -906,6 +1009,11 @@ example : ∃ s', step asIs w0 (.copy true true) = some s' ∧ specB w0 (.copy t
 example : ∃ s', step asIs w0 (.getDual true ⟨0, 0, 0⟩) = some s' ∧ Inv s' :=
   ⟨_, rfl, attachedB_iff.mp (by decide)⟩
 example : ∀ k, ((fun _ => Path.replace : Table) k).good = true := fun _ => rfl
+/-- element dimension FIRST: `(n_face: 6, t: 3)` sliced to a 2-face sub-grid is `(n_face: 2, t: 3)` -/
+example : (run asIs w0 [.transpose [(.face, 6), (.other 0, 3)], .gridIsel ⟨6, 7, 2⟩]).map (·.arr) =
+    some ⟨true, some 2, [(.face, 2), (.other 0, 3)]⟩ := by decide
+example : (run asIs w0 [.expandDims 4 true, .gridIsel ⟨6, 7, 2⟩]).map (·.arr) =
+    some ⟨true, some 2, [(.other 0, 3), (.face, 2), (.other 4, 1)]⟩ := by decide
 example : OpGoodS asIs (.remap 1 .node) ∧ OpGoodS asIs (.copy true true) ∧ OpGoodS asIs (.index .face .drop) :=
   ⟨⟨⟨rfl, fun _ h => by cases h⟩, by decide⟩, ⟨⟨rfl, fun _ h => by cases h⟩, by decide⟩,
    ⟨⟨rfl, fun k h => by cases h; rfl⟩, by decide⟩⟩
